@@ -323,6 +323,16 @@ def check_sim(case):
     tags = ['kind:sim'] + netgen.features(spec)
     try:
         wn = S.build_wn(spec)
+        if spec.get('pdd_controls'):
+            from wntr.network.controls import Control, ControlAction
+            tags.append('history:pressure_window_controls')
+            n_ = 0
+            for c in spec['pdd_controls']:
+                for key, attr in (('pmin', 'minimum_pressure'), ('preq', 'required_pressure')):
+                    if key in c:
+                        act = ControlAction(wn.get_node(c['junction']), attr, c[key])
+                        wn.add_control('pdd%d' % n_, Control._time_control(wn, int(c['at']), 'SIM_TIME', False, act))
+                        n_ += 1
     except Exception as ex:
         return fail(exc_bucket(ex, 'build'), 'building the model raised %r' % ex, tags)
     run = S.run_wntr(wn, hw_approx=spec['opts']['hw_approx'])
@@ -347,8 +357,10 @@ def check_sim(case):
             if p == 0.0 and q == 0.0 and run.node['head'][n][k] == 0.0:
                 seen.add('sim:reported_isolated')      # WNTR's own isolation marker; not a connected junction
                 continue
-            a = o['pmin'] if j.get('pmin') is None else j['pmin']
-            b = o['preq'] if j.get('preq') is None else j['preq']
+            a, b = _window_at(spec, j, t)
+            if not b - a >= MIN_GAP - 1e-12:
+                seen.add('sim:window_control_made_gap_too_small')     # outside the documented domain from here on
+                continue
             e = o['pexp'] if j.get('pexp') is None else j['pexp']
             D = S.expected_demand(spec, j, t)
             tol = 1.05e-6 + 1e-9 * abs(D)
@@ -486,7 +498,36 @@ def sim_case(draw, tier='quick'):
             j['pmin'] = r4(max(0.0, o['preq'] - draw(_sim_gap)))
         elif mode & 2:
             j['preq'] = r4(o['pmin'] + draw(_sim_gap))
+    nsteps = o['duration'] // o['hyd']
+    if nsteps >= 2 and draw(st.integers(0, 2)) == 0:
+        # history inside one run: controls move the pressure window of a junction (both ends at one instant, or one end);
+        # from that instant on the junction must follow the curve of the new window
+        pc = []
+        for _ in range(draw(st.integers(1, 2))):
+            j = spec['junctions'][draw(st.integers(0, len(spec['junctions']) - 1))]
+            at = o['hyd'] * draw(st.integers(1, nsteps))
+            pmin = draw(_sim_pmin)
+            which = draw(st.sampled_from(['both', 'both', 'pmin', 'preq']))
+            c = {'junction': j['name'], 'at': at}
+            if which in ('both', 'pmin'):
+                c['pmin'] = pmin
+            if which in ('both', 'preq'):
+                c['preq'] = r4(pmin + draw(_sim_gap))
+            pc.append(c)
+        spec['pdd_controls'] = sorted(pc, key=lambda c: (c['at'], c['junction']))
     return {'kind': 'sim', 'spec': spec}
+
+
+def _window_at(spec, j, t):
+    """(Pmin, Preq) of junction j in effect at time t: overrides, then the commands of pdd_controls up to t"""
+    o = spec['opts']
+    a = o['pmin'] if j.get('pmin') is None else j['pmin']
+    b = o['preq'] if j.get('preq') is None else j['preq']
+    for c in spec.get('pdd_controls', []):
+        if c['junction'] == j['name'] and c['at'] <= t:
+            a = c.get('pmin', a)
+            b = c.get('preq', b)
+    return a, b
 
 
 def strategy(tier='quick'):
